@@ -216,13 +216,37 @@ func outRec(name string, o *realOut) *wire.Rec {
 func firstDiff(a, b []string) (int, string, string) {
 	for i := 0; i < len(a) && i < len(b); i++ {
 		if a[i] != b[i] {
-			return i, a[i], b[i]
+			x, y := around(a[i], b[i])
+			return i, x, y
 		}
 	}
 	if len(a) != len(b) {
 		return min(len(a), len(b)), fmt.Sprintf("<%d lines>", len(a)), fmt.Sprintf("<%d lines>", len(b))
 	}
 	return -1, "", ""
+}
+
+// the parts of two lines around their first difference
+func around(a, b string) (string, string) {
+	i := 0
+	for i < len(a) && i < len(b) && a[i] == b[i] {
+		i++
+	}
+	lo := i - 120
+	if lo < 0 {
+		lo = 0
+	}
+	cut := func(s string) string {
+		hi := i + 120
+		if hi > len(s) {
+			hi = len(s)
+		}
+		if lo > len(s) {
+			return ""
+		}
+		return s[lo:hi]
+	}
+	return cut(a), cut(b)
 }
 
 func clip(s string) string {
@@ -252,6 +276,9 @@ func freshRun(op *wire.Rec) (string, string, []string, error) {
 	cmd.Stdin = strings.NewReader(op.String() + "\n")
 	outb, err := cmd.Output()
 	if err != nil {
+		if ee, ok := err.(*exec.ExitError); ok {
+			return "", "", nil, fmt.Errorf("%v: %s", err, firstLine(string(ee.Stderr)))
+		}
 		return "", "", nil, err
 	}
 	lines := strings.Split(strings.TrimRight(string(outb), "\n"), "\n")
